@@ -9,6 +9,7 @@ import AnthemModel.Model.TauStar
 import AnthemModel.Model.Completion
 import AnthemModel.Model.Analyze
 import AnthemModel.Syntax.WireProblem
+import AnthemModel.Model.TptpFmt
 import Driver.Search
 open Anthem
 
@@ -109,6 +110,32 @@ def respond (req : Sexp) : Sexp :=
       if strongPanics t then .list [.atom "panic"]
       else match strongProblems t fuel with
         | some ps => .list (ps.map Problem.toSexp)
+        | none => .list [.atom "timeout"]
+    | _, _, _, _, _, _, _, _ => bad
+  | .list [.atom "tptp_formula", f] =>
+    match Formula.ofSexp f with
+    | some f => if f.tptpPanics then .list [.atom "panic"] else .str (tptpFormula f)
+    | none => bad
+  | .list [.atom "strong_text", l, r, .atom dec, .atom dir, .atom rep, simp, brk, fuel] =>
+    match Asp.programOfSexp l, Asp.programOfSexp r, Decomposition.ofName dec, Direction.ofName dir,
+        FormulaRep.ofName rep, simp.asBool?, brk.asBool?, fuel.asNat? with
+    | some l, some r, some dec, some dir, some rep, some simp, some brk, some fuel =>
+      let t : StrongTask := ⟨l, r, dec, dir, rep, simp, brk⟩
+      if strongPanics t then .list [.atom "panic"]
+      else match strongProblems t fuel with
+        | some ps =>
+          if ps.any Problem.tptpPanics then .list [.atom "panic"]
+          else .list (ps.map fun p => .list [.str p.name, .str p.tptpText])
+        | none => .list [.atom "timeout"]
+    | _, _, _, _, _, _, _, _ => bad
+  | .list [.atom "strong_hygiene", l, r, .atom dec, .atom dir, .atom rep, simp, brk, fuel] =>
+    match Asp.programOfSexp l, Asp.programOfSexp r, Decomposition.ofName dec, Direction.ofName dir,
+        FormulaRep.ofName rep, simp.asBool?, brk.asBool?, fuel.asNat? with
+    | some l, some r, some dec, some dir, some rep, some simp, some brk, some fuel =>
+      let t : StrongTask := ⟨l, r, dec, dir, rep, simp, brk⟩
+      if strongPanics t then .list [.atom "panic"]
+      else match strongProblems t fuel with
+        | some ps => .list (ps.map fun p => .list [.str p.name, .list (p.hygieneIssues.map .atom)])
         | none => .list [.atom "timeout"]
     | _, _, _, _, _, _, _, _ => bad
   | .list [.atom "free_vars", f] =>
